@@ -10,7 +10,7 @@ func Verif_C03_delivery() {
 	if verifTier() >= 1 {
 		K = 3
 	}
-	verifNote("Established: stream of K frames (2 quick / 3 thorough), each symbolically UPDATE (body length symbolic 0..4077) or KEEPALIVE, then EOF; the first 2 (quick) / 3 (thorough) Read calls return a symbolic number of bytes (every segmentation incl. reads ending inside a header); the handler returns a symbolic Notification at a symbolically chosen call or never")
+	verifNote("Established: stream of K frames (2 quick / 3 thorough), each symbolically UPDATE (body length symbolic 0..4077) or KEEPALIVE, then EOF; the first 2 (quick) / 3 (thorough) Read calls return a symbolic number of bytes (every segmentation incl. reads ending inside a header); the handler returns a symbolic Notification at a symbolically chosen call or never; negotiated hold time 90 s or 0 (symbolic)")
 	cfg := concreteConfig()
 	conn := newSymConn("c", nil, 1)
 	var bodies [][]byte
@@ -29,7 +29,12 @@ func Verif_C03_delivery() {
 	ndata := verifBuf("ndata", 0, 4)
 	pl.handlerNotif = &Notification{Code: verifU8("ncode"), Subcode: verifU8("nsub"), Data: ndata}
 	p := mkPeer(cfg, pl)
-	f := fsmNegotiated(p, conn, 90, 1)
+	// the negotiated hold time is 90 s or 0 (no hold / keep-alive timers): delivery must not depend on it
+	hold := uint16(90)
+	if verifChoose("remote-hold-zero", 2) == 1 {
+		hold = 0
+	}
+	f := fsmNegotiated(p, conn, hold, 1)
 	to, _ := f.established()
 	verifQuiesce()
 	want := len(bodies)
